@@ -118,9 +118,16 @@ std::optional<datetime> file_modified_time_reply::parse_datetime(const reply & r
         return std::nullopt;
     }
 
-    /* Are there any chars after the '.'? */
-    if (time_val.size() > fractions_pos)
+    /* Are there any chars after the mandatory digits? They must be a period
+     * followed by one or more digits.
+     */
+    if (time_val.size() > min_time_val_size)
     {
+        if (time_val[min_time_val_size] != '.')
+        {
+            return std::nullopt;
+        }
+
         if (!utils::try_parse_uint32(time_val.substr(fractions_pos), result.fractions))
         {
             return std::nullopt;
